@@ -345,7 +345,20 @@ type c03Result struct {
 	toolErr                                   string
 }
 
-func c03Exec(ss *c03Servers, c *c03Case) *c03Result {
+// c03Exec runs one case; a panic escaping from the server or a handler call is a finding of its own class (the
+// servers are rebuilt afterwards because their pools may hold half-written state).
+func c03Exec(ss *c03Servers, c *c03Case) (res *c03Result) {
+	defer func() {
+		if p := recover(); p != nil {
+			class, detail := c03PanicClass(p)
+			res = &c03Result{finds: []c03Finding{{class, "the library panicked while serving the case: " + detail}}}
+			ss.srv = nil
+		}
+	}()
+	return c03ExecInner(ss, c)
+}
+
+func c03ExecInner(ss *c03Servers, c *c03Case) *c03Result {
 	r1, r2 := c03Request(c.M1, c.V1, c.Gzip), c03Request(c.M2, c.V2, c.Gzip)
 	var conn *vnet.Conn
 	if c.Pipe {
